@@ -40,6 +40,11 @@ BrokenZst(r) ==
   \*     same trait-object type, carry different vtables), and pointers to different allocations are not
   \cup (IF o.dyn_ptr_eq = o.dyn_same_alloc /\ o.dyn_weak_ptr_eq = o.dyn_same_alloc /\ o.dyn_same_alloc = e.cached
         THEN {} ELSE {"r7"})
+  \* r8: the shared allocation is the same object for the collector whoever holds it: a reachable cache (here a
+  \*     field of a struct behind a Gc) keeps it alive, a pointer the cache handed out keeps it alive without the
+  \*     cache exactly when it IS the shared one, and it is released once when neither exists
+  \cup (IF o.kept_by_cache /\ o.handed_is_shared = e.cached /\ o.kept_by_handed = e.cached /\ o.shared_released_once
+        THEN {} ELSE {"r8"})
 
 TInit == i = 1 /\ viol = {} /\ seenChains = {} /\ seenZst = {}
 TNext ==
